@@ -247,4 +247,51 @@ theorem settle_reachable (n : Nat) {s : State} (h : Reachable s) : Reachable (se
     | none => exact h
     | some p => obtain ⟨e, s'⟩ := p; exact ih (reachable_step h (pick_step hp))
 
+
+/-! ## proof plumbing shared by the invariant files -/
+
+attribute [local simp] State.upd State.release State.releaseOpt State.emit State.setSlot State.log State.enqueue
+  handover finishRead
+
+theorem ite_ite_same {α : Type} (c : Prop) [Decidable c] (a b d : α) :
+    (if c then a else if c then b else d) = if c then a else d := by
+  split <;> simp [*]
+
+/-- split `h : step… = some s'` into its leaves, substituting `s'` -/
+macro "leaves" h:ident : tactic =>
+  `(tactic| (repeat' (first
+      | (split at $h:ident)
+      | (simp only [Option.some.injEq, reduceCtorEq] at $h:ident)
+      )))
+
+/-- unfold whichever step function `h` is about -/
+macro "unfold_step" h:ident : tactic =>
+  `(tactic| (simp only [step?] at $h:ident; try (first | unfold stepPump at $h:ident | unfold stepRecvOpenStart at $h:ident | unfold stepDiscard at $h:ident | unfold stepCloseData at $h:ident | unfold stepCloseFrame at $h:ident | unfold stepJoinedA at $h:ident | unfold stepPush at $h:ident | unfold stepPop at $h:ident | unfold stepSendOpen at $h:ident | unfold stepJoinedC at $h:ident | unfold stepDoFlush at $h:ident | unfold stepAppOpen at $h:ident | unfold stepAppRead at $h:ident | unfold stepReadStep at $h:ident | unfold stepAppWrite at $h:ident | unfold stepWriteStep at $h:ident | unfold stepAppFlush at $h:ident | unfold stepAppDrop at $h:ident)))
+
+/-- the configuration and the stream-id partition never change -/
+theorem step?_static {s s' : State} {e : Event} (h : step? s e = some s') :
+    s'.cfg = s.cfg ∧ s'.nAcc = s.nAcc ∧ s'.nCon = s.nCon ∧ s'.rngAcc = s.rngAcc ∧ s'.rngCon = s.rngCon := by
+  cases e <;> unfold_step h <;> leaves h
+  all_goals (subst h; simp [readFrame]; try (repeat' split) <;> simp)
+
+
+
+macro "red" : tactic =>
+  `(tactic| dsimp only [State.upd, State.release, State.releaseOpt, State.emit, State.setSlot, State.log, State.enqueue,
+      handover, finishRead, readFrame, Key.valid, State.rng] at *)
+
+theorem init_eq (cfg : Cfg) (acc con pacc pcon : Caps) :
+    ∃ d na nc, State.init cfg acc con pacc pcon =
+      { State.start cfg acc con pacc pcon with dead := d, nAcc := na, nCon := nc } := by
+  unfold State.init
+  simp only []
+  split
+  · exact ⟨_, _, _, rfl⟩
+  · split
+    · exact ⟨_, _, _, rfl⟩
+    · split
+      · exact ⟨_, _, _, rfl⟩
+      · exact ⟨_, _, _, rfl⟩
+
+
 end EraVerif.Proofs.Mux
